@@ -19,7 +19,7 @@ import traceback
 ID = "C16"
 LEVEL = "exploration"
 TECHNIQUE = "differential runtime monitoring: the real Message.set_request_uri / get_request_uri / UndecidedRemote / hostportsplit / hostportjoin driven with generated URIs, option sets, damaged URIs and arbitrary strings, judged by an independent RFC 3986 + RFC 7252 section 6.4/6.5 reference (harness/refuri.py)"
-LEVEL_TEXT = "Held on every generated case: ~3e5 (quick) / ~6.4e6 (thorough) URIs, option sets, damaged URIs, arbitrary strings and host/port pairs over 6 schemes in mixed case, names / escaped names / IPv4 / IPv4 look-alikes / IPv6 in all text forms / zone ids / IPvFuture, all port classes, path and query segments over the whole Unicode range incl. reserved characters and empty segments; says nothing about inputs outside the generators' classes."
+LEVEL_TEXT = "Held on every generated case: ~3e5 (quick) / ~1.2e7 (thorough) URIs, option sets, damaged URIs, arbitrary strings and host/port pairs over 6 schemes in mixed case, names / escaped names / IPv4 / IPv4 look-alikes / IPv6 in all text forms / zone ids / IPvFuture, all port classes, path and query segments over the whole Unicode range incl. reserved characters and empty segments; says nothing about inputs outside the generators' classes."
 LEVEL_NOTE = "Trusted: harness/refuri.py (self-tested each run on the RFC 7252 6.3 / Appendix B and RFC 3986 examples). Judged leniently on purpose: order of lower-casing vs percent-decoding of the host, where the port is stored, explicit default ports, 'coap://h/?' ([] or ['']), IPv4 text with leading zeros, text with raw non-ASCII characters (IRI), incomplete % sequences, ports > 65535."
 RULE = (
     "cases are (a/b) generated valid URIs decomposed by Message(uri=...) and recomposed by get_request_uri(), (c) option sets built on a "
@@ -57,7 +57,7 @@ SCHEMES = ["coap", "coaps", "coap+tcp", "coaps+tcp", "coap+ws", "coaps+ws"]
 CLASSES = {"uri": 0, "opt": 1, "bad": 2, "arb": 3, "hp": 4, "fixed": 5}
 PER_SHARD = {
     "quick": {"uri": 7000, "opt": 3500, "bad": 2500, "arb": 4000, "hp": 2000},
-    "thorough": {"uri": 150000, "opt": 75000, "bad": 50000, "arb": 85000, "hp": 40000},
+    "thorough": {"uri": 280000, "opt": 140000, "bad": 100000, "arb": 160000, "hp": 80000},
 }
 
 
@@ -881,6 +881,10 @@ class Checker:
                 rep.count("iri_rejected")
             elif D.host.kind == "ipvfuture":
                 rep.count("ipvfuture_rejected_with_url_error")  # not a destination this library can address: accepted outcome
+            elif D.path_literal is None:
+                # the segment it stumbles over is one that reference resolution (6.4 step 2) removes
+                rep.violation("decompose/dot-segments-not-removed", "a valid CoAP URI is rejected because of a path segment that dot-segment removal drops", dict(wit, exc=repr(res)), case)
+                violated = True
             elif D.host.zone is not None and "%" in D.host.text.partition("%25")[2]:
                 rep.count("zone_with_escaped_characters_rejected")  # RFC 6874 allows pct-encoded in a ZoneID; no platform has such zones
             else:
